@@ -1795,6 +1795,7 @@ def run(ctx: Ctx):
     H5.run_subprops(ctx)       # (33)
     H5.run_subsets(ctx)        # (37) every subset of operands requiring grad
     H5.run_layout(ctx)         # (39), (41) permuted strides x degenerate minority x 20..64 items
+    H5.run_cotlayout(ctx)      # (49) upstream cotangent in a transposed / permuted dense layout
     H5.run_huge(ctx)           # (34) > 2^17 items
     H4.run_subclasses(ctx)     # (21)
     H4.run_default_dtype(ctx)  # (25)
